@@ -41,6 +41,13 @@
   anticipation), `infra_at_relimit_last` (a same-name update of the last constraint: same ids, same order,
   new limit — the ids of a view do not determine it).
 
+  INTERRUPTED AND RESUMED runs, `step()` prefixes (last section; full-model / JSON half: AcnProofs/C05Resume.lean):
+  `resume_invoked_record` / `resume_invoked_iff` (a run whose scheduler raises in period `k`, continued by a second
+  `run()`: the completed simulation has the uninterrupted run's state and invocation periods, period `k` invoked again
+  on resume exactly once), `step_pass_contract`, `step_loop_test`, `step_exactly_one_period`, `step_then_run_invoked`
+  (the `run()` that follows a `step()` prefix invokes the scheduler exactly where the rule requires, a schedule supplied
+  by `step()` counting as the last schedule update).
+
   Isolation: in the model a view is a VALUE, so isolation holds by construction; what is proved is
   the precise form "the next state is a function of (state, value returned on the handed view)"
   (`isolation_model`, `isolation_run`).  That Python's object copies really are isolated is the
@@ -50,6 +57,7 @@ import AcnProofs.Lemmas.SchedView
 import AcnProofs.Lemmas.SchedInfra
 import AcnProofs.Lemmas.IgnoredEvents
 import AcnProofs.Lemmas.NetEdits
+import AcnProofs.Lemmas.StepContract
 import Mathlib.Tactic
 
 namespace Acn.C05
@@ -783,5 +791,255 @@ example :
     (infraInfo cfg2 { nd with constraints := [] }).constraintMatrix = [] := by decide +kernel
 
 end simex
+
+/-! ## interrupted and resumed runs; `step()` prefixes -/
+
+section resume
+variable {cfg : EventCore.Cfg}
+
+/-- **resume_invoked_record** — every valid scenario, every period `k`, every fuel: a `run()` whose scheduler raises when
+    it is entered in period `k` (`failSchedAt k`), continued by a second `run()` on the state the abort left (the period's
+    events applied, `_resolve` / `_last_schedule_update` as the events left them, the failed call recorded).  Either the
+    failure never fires — the run is the uninterrupted run, which does not invoke the scheduler in period `k` — or the
+    first `run()` aborts in period `k` and the second ends in EXACTLY the uninterrupted run's final state (iteration,
+    queue, occupancy, `_resolve`, `_last_schedule_update`, both histories) with the invocation record
+    `pre ++ [k] ++ [k] ++ post` instead of `pre ++ [k] ++ post`: period `k` is invoked again on resume, once, and every
+    other period exactly as without the interruption. -/
+theorem resume_invoked_record (hv : Valid cfg) (k n : Nat) :
+    let r1 := run cfg (failSchedAt k) noFail n (init cfg)
+    let r := run cfg noFail noFail n (init cfg)
+    (r1 = r ∧ k ∉ r.1.invoked) ∨
+    (r1.2 = some .schedulerFailed ∧ r1.1.iter = k ∧ Fresh r1.1 ∧
+      ∃ pre post, r1.1.invoked = pre ++ [k] ∧ r.1.invoked = pre ++ [k] ++ post ∧ (∀ t ∈ post, k < t) ∧
+        run cfg noFail noFail (n - k) r1.1 = (setInv (pre ++ [k] ++ [k] ++ post) r.1, r.2)) := by
+  intro r1 r
+  rcases resume_invoked cfg k n (init_noOverdue_valid hv) (Nat.zero_le k) with
+    ⟨h1, δ, h2, h3⟩ | ⟨h1, h2, h3, pre, post, h4, h5, h6, h7⟩
+  · left
+    refine ⟨h1, ?_⟩
+    have : r.1.invoked = δ := h2
+    rw [this]; exact h3
+  · right
+    have h7' : run cfg noFail noFail (n - k) r1.1 = (setInv (pre ++ [k] ++ [k] ++ post) r.1, r.2) := h7
+    exact ⟨h1, h2, h3, pre, post, h4, h5, h6, h7'⟩
+
+/-- **resume_invoked_iff** — closed form: valid scenario, non-failing continuation, fuel ≥ horizon.  If the uninterrupted
+    run does not invoke the scheduler in period `k` the failure never fires.  Otherwise `run()` aborts in period `k`, the
+    second `run()` completes (no error, `horizon` periods), and in the completed simulation period `t` is an invocation
+    period  ⇔  `t < horizon` and a session arrives or departs at `t` or a recompute event carries timestamp `t`, or
+    `max_recompute = m` and the previous invocation period lies ≥ `m` periods back; period `k` is recorded exactly twice
+    (the failed call and its repetition), every other period at most once. -/
+theorem resume_invoked_iff (hv : Valid cfg) (k n : Nat) (hn : horizon cfg ≤ n) :
+    let r1 := run cfg (failSchedAt k) noFail n (init cfg)
+    let r := run cfg noFail noFail n (init cfg)
+    let r2 := run cfg noFail noFail (n - k) r1.1
+    (k ∉ r.1.invoked → r1 = r) ∧
+    (k ∈ r.1.invoked → r1.2 = some .schedulerFailed ∧ r1.1.iter = k ∧ r2.2 = none ∧ r2.1.iter = horizon cfg ∧
+      (∀ t, t ∈ r2.1.invoked ↔ t < horizon cfg ∧ (EventAt cfg t ∨ ∃ m, cfg.maxRecompute = some m ∧
+        ∀ u, lastBefore r.1.invoked t = some u → m + u ≤ t)) ∧
+      r2.1.invoked.count k = 2 ∧ ∀ t, t ≠ k → r2.1.invoked.count t ≤ 1) := by
+  intro r1 r r2
+  obtain ⟨c', hr, hI⟩ := run_spec hv (sched := noFail) (apply := noFail) (fun _ => rfl) (fun _ => rfl) n 0 (init cfg)
+    (init_inv hv) (Nat.zero_le _)
+  have hr' : r = (c', none) := hr
+  have hiter : c'.iter = horizon cfg := by rw [hI.iter]; omega
+  have hsorted : c'.invoked.Pairwise (· < ·) := by
+    have := invoked_at_most_once (cfg := cfg) (sched := noFail) (apply := noFail) n c' none hr
+    exact this
+  rcases resume_invoked_record hv k n with ⟨h1, h2⟩ | ⟨h1, h2, _, pre, post, h4, h5, _, h7⟩
+  · exact ⟨fun _ => h1, fun hk => absurd hk h2⟩
+  · have h5' : c'.invoked = pre ++ [k] ++ post := by
+      have : r.1.invoked = pre ++ [k] ++ post := h5
+      rw [hr'] at this; exact this
+    have hk : k ∈ r.1.invoked := by
+      show k ∈ r.1.invoked
+      rw [hr', h5']; simp
+    refine ⟨fun hnk => absurd hk hnk, fun _ => ?_⟩
+    have h7' : r2 = (setInv (pre ++ [k] ++ [k] ++ post) c', none) := by
+      have : r2 = (setInv (pre ++ [k] ++ [k] ++ post) r.1, r.2) := h7
+      rw [hr'] at this; exact this
+    have hnd : c'.invoked.Nodup := hsorted.imp (fun hab => Nat.ne_of_lt hab)
+    refine ⟨h1, h2, by rw [h7'], by rw [h7']; exact hiter, ?_, ?_, ?_⟩
+    · intro t
+      have hmem : t ∈ r2.1.invoked ↔ t ∈ r.1.invoked := by
+        rw [h7', hr', h5']
+        simp only [setInv, List.mem_append, List.mem_singleton]
+        tauto
+      rw [hmem]
+      exact run_invoked_iff hv (fun _ => rfl) (fun _ => rfl) n hn t
+    · rw [h7']
+      have hc : c'.invoked.count k ≤ 1 := List.nodup_iff_count_le_one.1 hnd k
+      rw [h5'] at hc
+      simp only [setInv, List.count_append, List.count_singleton_self] at hc ⊢
+      omega
+    · intro t ht
+      rw [h7']
+      have hc : c'.invoked.count t ≤ 1 := List.nodup_iff_count_le_one.1 hnd t
+      rw [h5'] at hc
+      have h0 : List.count t [k] = 0 := by
+        rw [List.count_eq_zero]; simp; exact ht
+      simp only [setInv, List.count_append, h0] at hc ⊢
+      omega
+
+/-- the Lean example of the trigger section (session [1,6), recompute event at 9, `max_recompute = 2`; uninterrupted:
+    `[0, 1, 3, 5, 6, 8, 9]`): raising in the event period 6, the timer period 3, the LAST period 9 (queue already empty:
+    the loop guard is kept alive by `_resolve`), and in period 0 before anything was ever scheduled
+    (`_last_schedule_update = None`) — each is invoked again on resume, once; raising in the quiet period 2 never fires -/
+example :
+    (run exCfg noFail noFail 12 (run exCfg (failSchedAt 6) noFail 12 (init exCfg)).1).1.invoked = [0, 1, 3, 5, 6, 6, 8, 9] ∧
+    (run exCfg (failSchedAt 6) noFail 12 (init exCfg)).1.resolve = true ∧
+    (run exCfg noFail noFail 12 (run exCfg (failSchedAt 3) noFail 12 (init exCfg)).1).1.invoked = [0, 1, 3, 3, 5, 6, 8, 9] ∧
+    (run exCfg (failSchedAt 3) noFail 12 (init exCfg)).1.resolve = false ∧
+    (run exCfg (failSchedAt 3) noFail 12 (init exCfg)).1.lastUpd = some 1 ∧
+    (run exCfg noFail noFail 12 (run exCfg (failSchedAt 9) noFail 12 (init exCfg)).1).1.invoked = [0, 1, 3, 5, 6, 8, 9, 9] ∧
+    (run exCfg (failSchedAt 9) noFail 12 (init exCfg)).1.pending = [] ∧
+    (run exCfg noFail noFail 12 (run exCfg (failSchedAt 0) noFail 12 (init exCfg)).1).1.invoked = [0, 0, 1, 3, 5, 6, 8, 9] ∧
+    (run exCfg (failSchedAt 0) noFail 12 (init exCfg)).1.lastUpd = none ∧
+    (run exCfg (failSchedAt 2) noFail 12 (init exCfg)).2 = none ∧
+    (run exCfg noFail noFail 12 (run exCfg (failSchedAt 9) noFail 12 (init exCfg)).1).1.iter = 10 := by decide +kernel
+
+end resume
+
+section stepc
+open Acn.Sim
+variable {K : Type} [Add K] [Sub K] [Mul K] [Div K] [Neg K] [LT K] [LE K]
+  [DecidableLT K] [DecidableLE K] [OfNat K 0] [OfNat K 1] [NatCast K] [HasExp K]
+
+/-- **step_pass_contract** — one pass of `Simulator.step(new_schedule)` that raises nothing: the schedule handed in is
+    applied to the CURRENT period (the pilot of every station in period `t` is the schedule's entry, 0 if omitted), the
+    simulation advances by exactly one period, and on the event core the pass is `supplyPass`: `_last_schedule_update := t`,
+    `_resolve := False`, `t + 1`, then the events of period `t + 1` are applied (which set `_resolve` again). -/
+theorem step_pass_contract (cfg : Sim.Cfg K) (sch : Schedule K) {s s' : State K}
+    (hwf : s.pilots.WF (cfg.stations.map (·.id)).length) (h : stepPass cfg sch s = (s', none))
+    (hcov : Pilots.covers (cfg.stations.map (·.id))
+      ⟨s.core.iter, (lastTs s.core.pending).map Int.toNat, sch⟩ s.core.iter = true) :
+    supplyPass cfg.core s.core = (s'.core, none) ∧ s'.core.iter = s.core.iter + 1 ∧
+    (s'.core.resolve = !(popsAt (advance (markScheduled s.core))).isEmpty) ∧
+    ∀ st, s'.pilots.get ((cfg.stations.map (·.id)).idxOf st) s.core.iter =
+      Pilots.valueOf ⟨s.core.iter, (lastTs s.core.pending).map Int.toNat, sch⟩ st s.core.iter := by
+  have hs := stepPass_supply cfg sch h
+  have hf := eventsStage_ok_facts (cfg := cfg.core) (c := advance (markScheduled s.core)) hs
+  refine ⟨hs, hf.1, hf.2.2.1, ?_⟩
+  intro st
+  have := (stepPass_applies_schedule cfg sch s hwf (by rw [h]) hcov st).1
+  rw [h] at this
+  exact this
+
+/-- **step_loop_test** — after a pass the loop of `step()` goes on iff events are left, no event was applied in the new
+    period, and `max_recompute` is `None` or ≥ 2: `step()` advances to the next period in which a recompute is due -/
+theorem step_loop_test (cfg : Sim.Cfg K) (sch : Schedule K) {s s' : State K} (h : stepPass cfg sch s = (s', none)) :
+    stepCond cfg.maxRecompute false s'.core =
+      .ok (!s'.core.pending.isEmpty && !s'.core.resolve &&
+        (match cfg.maxRecompute with | none => true | some m => decide (2 ≤ m))) :=
+  stepCond_after_pass cfg sch h
+
+/-- **step_exactly_one_period** — with `max_recompute ≤ 1`, or when the pass stops in an event period or empties the
+    queue, the call is exactly one pass: it advances exactly one period and returns `event_queue.empty()` -/
+theorem step_exactly_one_period (cfg : Sim.Cfg K) (sch : Schedule K) (n : Nat) {s s' : State K}
+    (hp : s.core.pending ≠ []) (h : stepPass cfg sch s = (s', none))
+    (hc : (∃ m, cfg.maxRecompute = some m ∧ m ≤ 1) ∨ s'.core.resolve = true ∨ s'.core.pending = []) :
+    step cfg sch (n + 2) s = (s', .ok s'.core.pending.isEmpty) ∧ s'.core.iter = s.core.iter + 1 := by
+  rcases hc with ⟨m, hm, hle⟩ | hc
+  · exact step_one_period cfg sch n hm hle hp h
+  · exact step_stops_at_event cfg sch n hp h hc
+
+/-- **step_then_run_invoked** — the `run()` that follows a `step()` pass.  Let the pass be made in period `t` from a
+    state with events left and nothing overdue in period `t + 1` (`NoOverdue`: true after an earlier pass, and initially
+    when no event carries timestamp 0), let `sup` be the earlier periods in which a schedule was supplied (any increasing
+    list of periods < `t`; a ghost).  If the continued run raises nothing, it invokes the scheduler in exactly the periods
+    `δ` in which the loop of `run()` started at the loop head `H` = "period `t + 1`, schedule last supplied in `t`" does:
+    `H` satisfies the loop-head invariant, there is a trace from `H` whose record is `sup ++ [t] ++ δ`, and for every
+    period `h.iter ≥ t + 1` of it:  `h.iter ∈ δ`  ⇔  an event was popped in that period (for `t + 1`: applied by the pass)
+    ∨ `max_recompute = m` and the last period in which a schedule was supplied or the scheduler invoked lies ≥ `m` back. -/
+theorem step_then_run_invoked (cfg : Sim.Cfg K) (sch : Schedule K) (sched : View K → Except Err (Schedule K))
+    {s s' : State K} (h : stepPass cfg sch s = (s', none)) (hp : s.core.pending ≠ [])
+    (hI : NoOverdue cfg.core (advance (markScheduled s.core)))
+    (sup : List Nat) (hsup : sup.Pairwise (· < ·)) (hlt : ∀ t ∈ sup, t < s.core.iter) (n : Nat)
+    (hok : (Sim.run cfg sched (n + 1) s').2 = none) :
+    let H := setInv (sup ++ [s.core.iter]) (advance (markScheduled s.core))
+    Head H ∧ ∃ δ hs cH, Trace cfg.core noFail noFail H hs cH ∧ cH.invoked = sup ++ [s.core.iter] ++ δ ∧
+      (Sim.run cfg sched (n + 1) s').1.core.invoked = s.core.invoked ++ δ ∧ (∀ t ∈ δ, s.core.iter + 1 ≤ t) ∧
+      ∀ h ∈ hs, s.core.iter + 1 ≤ h.iter ∧ (h.iter ∈ δ ↔ popsAt h ≠ [] ∨ ∃ m, cfg.maxRecompute = some m ∧
+        ∀ u, lastBefore (sup ++ [s.core.iter] ++ δ) h.iter = some u → m + u ≤ h.iter) := by
+  intro H
+  have hH : Head H := supply_head s.core sup hsup hlt
+  have hs := stepPass_supply cfg sch h
+  have hg : guard (advance (markScheduled s.core)) = true := by
+    cases hpe : s.core.pending with
+    | nil => exact absurd hpe hp
+    | cons a l => simp [EventCore.guard, advance, markScheduled, hpe]
+  obtain ⟨δ, d1, d2, d3⟩ := run_after_supply (cfg := cfg.core) blind_noFail blind_noFail hI hg hs sup n
+  have hcore := run_core cfg sched (n + 1) s' hok
+  rw [d3] at hcore
+  simp only [Prod.mk.injEq] at hcore
+  obtain ⟨hc1, hc2⟩ := hcore
+  rcases hR : run cfg.core noFail noFail (n + 1) H with ⟨cH, o⟩
+  rw [hR] at d1 hc1 hc2
+  simp only [] at d1 hc1 hc2
+  subst hc2
+  obtain ⟨hs', ht, _, _⟩ := run_trace (n + 1) H cH none hR
+  refine ⟨hH, δ, hs', cH, ht, d1, ?_, d2, ?_⟩
+  · rw [← hc1]; rfl
+  · intro hd hhd
+    obtain ⟨_, hge, _, _, _⟩ := trace_at ht hH hhd
+    have hge' : s.core.iter + 1 ≤ hd.iter := hge
+    refine ⟨hge', ?_⟩
+    have hiff : hd.iter ∈ cH.invoked ↔ popsAt hd ≠ [] ∨ ∃ m, cfg.maxRecompute = some m ∧
+        ∀ u, lastBefore cH.invoked hd.iter = some u → m + u ≤ hd.iter := invoked_iff hH ht hhd
+    rw [d1] at hiff
+    refine Iff.trans ?_ hiff
+    simp only [List.mem_append, List.mem_singleton]
+    constructor
+    · intro hm; exact Or.inr hm
+    · rintro ((hm | hm) | hm)
+      · have := hlt _ hm; omega
+      · omega
+      · exact hm
+
+end stepc
+
+/-! ### non-vacuity of the `step()` theorems (`exSim`: session x on [1,4), `max_recompute = 2`) -/
+section stepex
+open Acn.Sim
+
+local instance : HasExp ℚ := ⟨fun x => x⟩
+
+/-- one `step()` call on the fresh simulator: a single pass (it stops in the event period 1, whose plug-in it applies,
+    leaving `_resolve` set), returns `False` (events are left); the `run()` that follows invokes the scheduler at once in
+    period 1 (the pending request), then in 3 (two periods elapsed) and 4 (unplug) — not in period 0, for which `step()`
+    supplied the schedule, and not in 2 -/
+example :
+    (stepPass exSim [("A", [16])] (Sim.init exSim)).2 = none ∧
+    (stepPass exSim [("A", [16])] (Sim.init exSim)).1.core.iter = 1 ∧
+    (stepPass exSim [("A", [16])] (Sim.init exSim)).1.core.resolve = true ∧
+    (stepPass exSim [("A", [16])] (Sim.init exSim)).1.core.lastUpd = some 1 ∧
+    (step exSim [("A", [16])] 8 (Sim.init exSim)).2 = .ok false ∧
+    (Sim.run exSim exSched 8 (stepPass exSim [("A", [16])] (Sim.init exSim)).1).2 = none ∧
+    (Sim.run exSim exSched 8 (stepPass exSim [("A", [16])] (Sim.init exSim)).1).1.core.invoked = [1, 3, 4] := by
+  decide +kernel
+
+/-- the hypotheses of `step_then_run_invoked` hold there: events are left and nothing is overdue in period 1 -/
+example : (Sim.init exSim).core.pending ≠ [] ∧ NoOverdue exSim.core (advance (markScheduled (Sim.init exSim).core)) := by
+  refine ⟨by decide, ?_⟩
+  have hp : (advance (markScheduled (Sim.init exSim).core)).pending = [⟨1, .plugin, "x"⟩] := by decide +kernel
+  have hf : findSession exSim.core "x" = some ⟨"x", "A", 1, 4⟩ := by decide +kernel
+  intro e he _
+  rw [hp, List.mem_singleton] at he
+  subst he
+  refine ⟨by decide, ?_⟩
+  intro y hy
+  rw [hf] at hy
+  cases hy
+  decide
+
+/-- with `max_recompute = 1` every call is exactly one period (`step_exactly_one_period`): three calls, iterations 1, 2, 3 -/
+example : ((steps { exSim with maxRecompute := some 1 } 8 [[("A", [16])], [], [("A", [8])]]
+      (Sim.init { exSim with maxRecompute := some 1 })).2.map fun r => r.2) = [1, 2, 3] ∧
+    -- with `max_recompute = None` the second call runs on from period 1 to the next event period, 4
+    ((steps { exSim with maxRecompute := none } 8 [[("A", [16])], [("A", [8])]]
+      (Sim.init { exSim with maxRecompute := none })).2.map fun r => r.2) = [1, 4] := by
+  decide +kernel
+
+end stepex
 
 end Acn.C05
